@@ -25,7 +25,7 @@ ASSUMPTIONS = [
     "the loop-carried dependencies of the analysis are observed by recording the KernelDG object the CLI creates "
     "(harness-side subclass, no change to the repository)",
 ]
-MIN_NONTRIVIAL = {"quick": 150, "thorough": 600}
+MIN_NONTRIVIAL = {"quick": 100, "thorough": 600}
 
 MARK = {
     "x86": ("movl $111, %ebx\n.byte 100,103,144\n", "movl $222, %ebx\n.byte 100,103,144\n"),
